@@ -94,9 +94,18 @@ pub enum Src {
     GenerateN,
     /// a host-provided byte iterator (KIterator::with_bytes), bidirectional
     Bytes,
+    /// `1..=n`
+    RangeInclusive,
+    /// an inclusive range whose bounds do not fit in 32 bits
+    RangeLarge,
+    /// a string of n multi-code-point grapheme clusters (spacing marks, combining marks)
+    StrClusters,
 }
 
-const SOURCES: [Src; 13] = [Src::List, Src::Tuple, Src::Range, Src::Str, Src::Map, Src::Gen, Src::MetaNext, Src::MetaBidir, Src::MetaIterator, Src::IterValue, Src::RepeatN, Src::GenerateN, Src::Bytes];
+const CLUSTERS: [&str; 8] = ["கி", "กำ", "e\u{301}", "நி", "a", "한", "🇯🇵", "z"];
+const LARGE_BASE: i64 = 4294967296;
+
+const SOURCES: [Src; 16] = [Src::List, Src::Tuple, Src::Range, Src::Str, Src::Map, Src::Gen, Src::MetaNext, Src::MetaBidir, Src::MetaIterator, Src::IterValue, Src::RepeatN, Src::GenerateN, Src::Bytes, Src::RangeInclusive, Src::RangeLarge, Src::StrClusters];
 
 #[derive(Clone, Copy, PartialEq, Eq, Debug, Hash)]
 pub enum Other {
@@ -245,6 +254,9 @@ fn source_src(s: Src, n: usize) -> String {
             _ => format!("src = ({})\n", items.join(", ")),
         },
         Src::Range => format!("src = 1..{}\n", n + 1),
+        Src::RangeInclusive => format!("src = 1..={n}\n"),
+        Src::RangeLarge => format!("src = {}..={}\n", LARGE_BASE + 1, LARGE_BASE + n as i64),
+        Src::StrClusters => format!("src = '{}'\n", CLUSTERS[..n.min(8)].concat()),
         Src::Str => format!("src = '{}'\n", &"abcdefgh"[..n]),
         Src::Map => {
             if n == 0 {
@@ -529,7 +541,7 @@ fn copy_it(it: &It) -> Result<It, Stop> {
 fn elements_of(v: &V) -> Option<Vec<V>> {
     match v {
         V::List(l) | V::Tup(l) => Some(l.clone()),
-        V::Str(s) => Some(s.chars().map(|c| V::Str(c.to_string())).collect()),
+        V::Str(s) => Some(unicode_segmentation::UnicodeSegmentation::graphemes(s.as_str(), true).map(|c| V::Str(c.to_string())).collect()),
         V::Map(m) => Some(m.iter().map(|(k, v)| V::Tup(vec![k.clone(), v.clone()])).collect()),
         _ => None,
     }
@@ -780,7 +792,9 @@ fn build_source(s: Src, n: usize) -> It {
         mk(Node::Seq { items, front: 0, back, kind, bidir, copy_shares })
     };
     match s {
-        Src::List | Src::Tuple | Src::Range | Src::MetaIterator | Src::IterValue | Src::Bytes => seq(ints, SeqKind::Data, true, false),
+        Src::List | Src::Tuple | Src::Range | Src::RangeInclusive | Src::MetaIterator | Src::IterValue | Src::Bytes => seq(ints, SeqKind::Data, true, false),
+        Src::RangeLarge => seq((1..=n as i64).map(|i| V::Int(LARGE_BASE + i)).collect(), SeqKind::Data, true, false),
+        Src::StrClusters => seq(CLUSTERS[..n.min(8)].iter().map(|c| V::Str(c.to_string())).collect(), SeqKind::Data, true, false),
         Src::Str => seq("abcdefgh"[..n].chars().map(|c| V::Str(c.to_string())).collect(), SeqKind::Data, true, false),
         Src::Map => seq((1..=n).map(|i| V::Tup(vec![V::Str("abcdefgh"[i - 1..i].to_string()), V::Int(i as i64)])).collect(), SeqKind::Data, true, false),
         Src::Gen => seq(ints, SeqKind::Traced("pull"), false, false),
